@@ -487,7 +487,9 @@ def rules(tier):
             # C07-ca idea: the scorer reads the OMEN tables in the ruleset's encoding
             ('C13.R21', _shared_rule('c07', 'r18_scorer_encoding_before_omen')),
             # C13-da: the guesser's terminal loader strips every field - terminals with leading/trailing blanks are loaded without them, the scorer keeps them
-            ('C13.R22', _shared_rule('c07', 'r3_record_layout'))]
+            ('C13.R22', _shared_rule('c07', 'r3_record_layout')),
+            # C13-eb: child probability scaled from the parent's - ties between parents are no longer exact
+            ('C13.R23', _shared_rule('c01', 'r4_prob_pt_coupling'))]
 
 
 META = {
